@@ -708,8 +708,11 @@ func toUInt64List(val interface{}) ([]uint64, error) {
 	switch x := val.(type) {
 	case []int:
 		l := make([]uint64, len(x))
+		var err error
 		for i := 0; i < len(x); i++ {
-			l[i] = uint64(x[i])
+			if l[i], err = toUInt64(x[i]); err != nil {
+				return nil, err
+			}
 		}
 		return l, nil
 	case []uint64:
